@@ -18,9 +18,12 @@ META = {
             "literals; (2) every writable abstract tree has such a spelling with parentheses exactly where needs_parens demands (min_parens), and (3) where they are demanded and "
             "omitted the spelling coincides with that of another tree; (4) unescape is a left inverse of every spelling of every valid UTF-8 string (raw, named, \\xHH, \\u{2-6 "
             "digits}); (5) parse::<u32>/<i32> invert positional numerals with leading zeros; (6) C07_reduction: the full statement C07_statement (forall G text, spells_grammar G "
-            "text -> read text = Ok G, read = grammar.pest under Peg.Spec then consume) follows from C07_tokenisation_statement. PARTIAL: the tokenisation half (grammar.pest under "
-            "Peg.Spec produces tokens_of_grammar cg for every spelling of cg) is not a theorem; it is checked on every run: the extracted Spec run of the transcribed grammar.pest "
-            "must return the real parser's forest, which must have the shape tokens_of_grammar cg, for every generated spelling. The same statement about the code AS SHIPPED is "
+            "text -> read text = Ok G, read = grammar.pest under Peg.Spec then consume) follows from C07_tokenisation_statement. Theorem C07_lexical: grammar.pest under Peg.Spec tokenises every lexeme "
+            "as written (number, integer, identifier, tag_id, escape with its nine alternatives, string / inner_str, character / inner_chr, insensitive_string and range with gaps "
+            "inside) into the token tree tokens_of expects, and the implicit skipping of a non-atomic rule consumes exactly a gap (blanks, newlines, nested block comments, line "
+            "comments). PARTIAL: the tokenisation of the EXPRESSION-level rules (grammar_rules, grammar_rule, expression, term, node, terminal, the operator and repeat_* rules, "
+            "_push, _push_literal, peek_slice, doc lines: C07_tokenisation_statement) is not a theorem; it is checked on every run: the extracted Spec run of the transcribed "
+            "grammar.pest must return the real parser's forest, which must have the shape tokens_of_grammar cg, for every generated spelling. The same statement about the code AS SHIPPED is "
             "refuted in Coq (C07_insens_space_refuted: `a = { ^ \"b\" }` reads as Insens(\"\\\"b\"); C07_nested_leading_bar_refuted: `a = { (| b | c) }` panics; both legal per "
             "grammar.pest) and on the real code in every run; with fixes/C07-1 and fixes/C07-2 applied (probed) the repaired model applies and both witnesses must read back correctly.",
     "note": "Trusted: Coq kernel; extraction (ExtrOcamlBasic only); harness/runner/driver; Peg.Spec as the meaning of grammar.pest; the hand transcription of grammar.pest (compared "
